@@ -64,6 +64,28 @@ Definition merge_proofP_D (p : proofD) (c s : Z) : outcome proofD :=
   let! _ := deref (lookup_ptr (pd_AResp p) 0) in
   Ok (mkPd (Some c) (pd_A p) (pd_E p) (pd_V p) (map_set (pd_AResp p) 0 (Some s)) (pd_ADisc p) (pd_nr p) (pd_rp p)).
 
+(* proofs.go ProofD.MergeProofP with either protocol version: pP is ProofP.P (nil in the new protocol) *)
+Definition merge_proofP_D_gen (p : proofD) (pP : option Z) (c s : Z) : outcome proofD :=
+  match pP with
+  | None => merge_proofP_D p c s
+  | Some _ =>
+    let! x := deref (lookup_ptr (pd_AResp p) 0) in
+    Ok (mkPd (pd_C p) (pd_A p) (pd_E p) (pd_V p) (map_set (pd_AResp p) 0 (Some (x + s))) (pd_ADisc p) (pd_nr p) (pd_rp p))
+  end.
+
+(* proofs.go ProofU.MergeProofP *)
+Definition merge_proofP_U (pk : pubkey) (p : proofU) (pP : option Z) (c s : Z) : outcome proofU :=
+  match pP with
+  | None =>
+    let! _ := deref (pu_C p) in
+    let! _ := deref (pu_S p) in
+    Ok (mkPu (pu_U p) (Some c) (pu_VPrime p) (Some s) (pu_MUser p))
+  | Some kp =>
+    let! u := deref (pu_U p) in
+    let! x := deref (pu_S p) in
+    Ok (mkPu (Some ((u * kp) mod pk_N pk)) (pu_C p) (pu_VPrime p) (Some (x + s)) (pu_MUser p))
+  end.
+
 (* ---------------------------------------------------------------------------------- *)
 
 (* The server answers only if every key id is known and the presented challenge input hashes
